@@ -43,13 +43,13 @@ def _uses_strings(terms):
     return False
 
 
-def discharge(pc, goal, want_smt2=False, all_backends=False):
+def discharge(pc, goal, want_smt2=False, all_backends=False, scale=1):
     """Check validity of  And(pc) => goal."""
     t0 = time.time()
     if z3.is_true(goal):
         return Verdict('unsat', 'trivial', 0.0)
     s = z3.Solver()
-    s.set('timeout', Z3_TIMEOUT_MS)
+    s.set('timeout', Z3_TIMEOUT_MS * scale)
     for t in pc:
         s.add(t)
     s.add(z3.Not(goal))
@@ -69,14 +69,14 @@ def discharge(pc, goal, want_smt2=False, all_backends=False):
         m = s.model()
         return Verdict('sat', 'z3-%s' % z3.get_version_string(), dt, model=m, smt2=smt2)
     reason = s.reason_unknown()
-    v2 = _external(smt2, pc + [goal])
+    v2 = _external(smt2, pc + [goal], scale)
     if v2 is not None and v2.status != 'unknown':
         v2.smt2 = smt2
         return v2
     return Verdict('unknown', 'z3+cvc5+z3-4.8', time.time() - t0, smt2=smt2, reason=reason)
 
 
-def _external(smt2, terms):
+def _external(smt2, terms, scale=1):
     strings = _uses_strings(terms)
     with tempfile.NamedTemporaryFile('w', suffix='.smt2', delete=False) as f:
         text = smt2
@@ -87,10 +87,10 @@ def _external(smt2, terms):
     try:
         t0 = time.time()
         for backend, cmd in (
-                ('cvc5-1.0.3', ['/usr/bin/cvc5', '--strings-exp', '--tlimit=%d' % (CVC5_TIMEOUT_S * 1000), fn]),
-                ('z3-4.8.12', ['/usr/bin/z3', '-T:%d' % OLDZ3_TIMEOUT_S, fn])):
+                ('cvc5-1.0.3', ['/usr/bin/cvc5', '--strings-exp', '--tlimit=%d' % (CVC5_TIMEOUT_S * 1000 * scale), fn]),
+                ('z3-4.8.12', ['/usr/bin/z3', '-T:%d' % (OLDZ3_TIMEOUT_S * scale), fn])):
             try:
-                p = subprocess.run(cmd, capture_output=True, text=True, timeout=max(CVC5_TIMEOUT_S, OLDZ3_TIMEOUT_S) + 5)
+                p = subprocess.run(cmd, capture_output=True, text=True, timeout=max(CVC5_TIMEOUT_S, OLDZ3_TIMEOUT_S) * scale + 5)
             except subprocess.TimeoutExpired:
                 continue
             out = p.stdout.strip().splitlines()
